@@ -177,6 +177,17 @@ theorem cloningCtor_clean : Clean cloningCtor where
     intro w args a ha; unfold cloningCtor; split
     · simp [ha]
     · exact ha
+  outsValid := by intro w args o ho; unfold cloningCtor at ho; split at ho <;> simp at ho
+  ownedValid := by
+    intro w args hv a ha
+    match args, ha with
+    | [s], ha =>
+      simp only [cloningCtor, clone, alloc, List.mem_cons, List.length_append, List.length_singleton] at ha ⊢
+      rcases ha with h | h
+      · omega
+      · have := hv a h; omega
+    | [], ha => exact hv a ha
+    | _ :: _ :: _, ha => exact hv a ha
 
 /-- a constructor that keeps the caller's slice is *not* clean (whenever the argument is the caller's) -/
 def retainingCtor : Api := fun w args =>
